@@ -66,14 +66,17 @@ def arg_for(method, kind, pre, eng):
     return kind, (lambda m: kind)
 
 
-def body_one(n, H, Ls, method, kind, clauses, phase='regular'):
+def body_one(n, H, Ls, method, kind, clauses, phase='regular', perm_k=None):
     WITNESS = WITNESS_C08 if clauses == ['log'] else globals()['WITNESS']
 
     def body(R):
         hjmod = sys.modules['athlib.highjump']
         eng = E.cur()
         perms = list(itertools.permutations(range(n)))
-        perm = perms[eng.choose(len(perms), 'perm')] if len(perms) > 1 else tuple(range(n))
+        if perm_k is not None:
+            perm = perms[perm_k]            # the job is one slice (one order of ranked_jumpers) of a larger job, for parallelism
+        else:
+            perm = perms[eng.choose(len(perms), 'perm')] if len(perms) > 1 else tuple(range(n))
         if phase == 'regular':
             pre = hj.build_regular(hjmod, n, H, Ls, perm)
             jo = None
@@ -277,10 +280,11 @@ def worker(job):
     if kind == 'one':
         _, n, H, Ls, method, akind, clauses, budget = job[:8]
         phase = job[8] if len(job) > 8 else 'regular'
-        label = '%s(%s) from %s n=%d H=%d columns=%s' % (method, akind, phase, n, H, list(Ls))
+        perm_k = job[9] if len(job) > 9 else None
+        label = '%s(%s) from %s n=%d H=%d columns=%s' % (method, akind, phase, n, H, list(Ls)) + ('' if perm_k is None else ' order#%d' % perm_k)
         R = hc.Runner(res, plain(), 'athlib.highjump.HighJumpCompetition.%s' % method, scripts_for(clauses + ['inv', 'jumpoff-result']), max_paths=200000, deadline=time.time() + budget)
         try:
-            R.explore(body_one(n, H, Ls, method, akind, clauses, phase), label)
+            R.explore(body_one(n, H, Ls, method, akind, clauses, phase, perm_k), label)
         except E.Budget as e:
             res.inconclusive.append('%s: %s' % (label, e))
     elif kind == 'tieorder':
@@ -351,6 +355,12 @@ def jobs_jumpoff_three(clauses, budget):
     for phase in ('jo1o', 'jo1x'):
         for (m, a) in [(m, b) for b in hj.BIBS[:n] for m in ('cleared', 'failed')]:
             jobs.append(('one', n, H, Ls, m, a, clauses, budget, phase))
+    # ... and on three regular heights after a first jump-off height that the tied leaders all cleared: the smallest shape in which a
+    # third athlete has the leaders' best height with no failure at it but more failures before it (countback's third criterion)
+    # (the three cards have the same shape and every ranking order is a symbolic choice, so the calls of one bib cover the others)
+    for m in ('cleared', 'failed'):
+        for k in range(6):
+            jobs.append(('one', 3, 3, (3, 3, 3), m, hj.BIBS[0], clauses, budget, 'jo1o', k))
     return jobs
 
 
@@ -391,13 +401,17 @@ def jobs_tieorder(nmax, Hmax, budget, three=True):
 
 
 def common_evidence(chk, nmax, Hmax):
+    pol = hj.probe_hci_policy(hc.plain())
+    chk.extra['best_column_policy_of_the_code_under_test'] = pol
     chk.functions = ['athlib.highjump.HighJumpCompetition.add_jumper / set_bar_height / check_started / cleared / failed / passed / retired / _rankj / _rank',
                      'athlib.highjump.Jumper._set_jump_array / cleared / failed / passed / retired / ranking_key / has_retired / place']
     chk.stubs = ['pre-state = a real HighJumpCompetition + Jumper objects whose fields are proxies: heights symbolic (strictly rising, <= 4.00 m), every card column a symbolic attempt '
                  'string (symbolic length 0-3, letters x o - r), flags tied to the cards by the regular-phase representation invariant (harness/hj.py CardModel)',
                  'the invariant is validated, not trusted: every counterexample is rebuilt through the public API (round-robin replay of the card) and compared field by field before it is reported; '
                  'a pre-state that cannot be reached as modelled ends the run as inconclusive (exit 2), never as a violation',
-                 'Decimal heights as exact scaled integers; list.sort on proxy keys forks on the comparisons']
+                 'Decimal heights as exact scaled integers; list.sort on proxy keys forks on the comparisons',
+                 'highest_cleared_index (internal) among several columns of the best height: the pre-states follow the code under test (probed concretely: %s column); '
+                 'the clauses never mention it - best height and places are computed from the cards alone' % pol]
     chk.bounds = {'athletes': '0..%d' % nmax, 'heights_on_the_card': '0..%d' % Hmax, 'columns_per_athlete': 'every combination 0..H',
                   'phase': 'pre-states of the regular phase (scheduled / started / won); the transitions into jump-off, finished and drawn are covered as post-states',
                   'histories': 'not unrolled: any history whose states stay inside these bounds reaches a pre-state of the family (inductive step checked as clause "inv")'}
